@@ -227,6 +227,12 @@ def rc_jobs(harness, mode, procs, n, size=100, variant='asan', extra=()):
     return [dict(harness=harness, variant=variant, mode=mode, n=n, size=size, sub=i, args=list(extra)) for i in range(procs)]
 
 
+def with_timeout(jobs, t):
+    for j in jobs:
+        j['timeout'] = t
+    return jobs
+
+
 def sweep_jobs(harness, mode, shards, variant='asan', extra=()):
     return [dict(harness=harness, variant=variant, mode=mode, shard=(i, shards), sub=i, args=list(extra)) for i in range(shards)]
 
@@ -260,8 +266,8 @@ def plan(pid, tier):
     P['C17'] = lambda: (sweep_jobs('h_fault', 'c17_single', 6) + rc_jobs('h_fault', 'c17', 10, 400 if q else 6000))
     P['C19'] = lambda: (rc_jobs('h_codec', 'c19', 6, 1500 if q else 30000) + sweep_jobs('h_codec', 'c19_sweep', 6 if q else 12) + rc_jobs('h_codec', 'c19_inv', 3, 800 if q else 10000) + sweep_jobs('h_codec', 'c19_singular', 3 if q else 8)
                         + sweep_jobs('h_needed', 'c06_rs_sweep', 2 if q else 8, extra=['--only_isa', '1']))
-    P['C18'] = lambda: (rc_jobs('t_race', 'c18_tsan', 8, 300 if q else 6000, variant='tsan') + sweep_jobs('h_sched', 'c18_sched_exhaustive', 6 if q else 12)
-                        + rc_jobs('h_sched', 'c18_sched', 4, 600 if q else 20000))
+    P['C18'] = lambda: with_timeout(rc_jobs('t_race', 'c18_tsan', 8, 300 if q else 6000, variant='tsan') + sweep_jobs('h_sched', 'c18_sched_exhaustive', 6 if q else 12)
+                        + rc_jobs('h_sched', 'c18_sched', 4, 600 if q else 20000), 240 if q else 3600)
     P['C20'] = lambda: rc_jobs('h_codec', 'c20', 16, 1500 if q else 40000)
     if pid not in P:
         return None
@@ -318,7 +324,7 @@ def run_job(job, vdirs, seed, tier, rundir, pid, exclude):
     log = open(os.path.join(rundir, label + '.log'), 'w')
     try:
         r = subprocess.run(argv, stdout=subprocess.PIPE, stderr=log, text=True, env=run_env(vdir), cwd=VERIF,
-                           timeout=job.get('timeout', 7200 if tier == 'thorough' else 1500))
+                           timeout=job.get('timeout', 7200 if tier == 'thorough' else 900))
         rc, stdout = r.returncode, r.stdout
         timed_out = False
     except subprocess.TimeoutExpired as e:
@@ -341,7 +347,7 @@ def replay_case(pid, path, vdirs, times=3):
     for _ in range(times):
         try:
             r = subprocess.run([exe, '--prop', pid, '--replay', path], stdout=subprocess.PIPE, stderr=subprocess.PIPE, text=True,
-                               env=run_env(vdir), cwd=VERIF, timeout=180)
+                               env=run_env(vdir), cwd=VERIF, timeout=90)
             if r.returncode != 0:
                 fails += 1
         except subprocess.TimeoutExpired:
@@ -466,6 +472,14 @@ def main_check(pid, tier, seed):
                 fail_files.append(m.group(1))
         if r['timed_out']:
             inconclusive.append('%s: time budget hit (inconclusive, not a violation)' % r['label'])
+            inflight = r['out'] + '.inflight'
+            if pid == 'C18' and os.path.exists(inflight) and os.path.getsize(inflight) > 0:
+                # for the concurrency property a hang is a candidate deadlock: replay decides
+                name = os.path.join(FAILDIR, '%s-hang-%s.case' % (pid, hashlib.sha1(open(inflight, 'rb').read()).hexdigest()[:16]))
+                with open(name, 'w') as o:
+                    o.write('# property=%s mode=%s\n# process did not finish within its time budget while executing this case (candidate deadlock)\n' % (pid, r['job']['mode']))
+                    o.write(open(inflight).read())
+                fail_files.append(name)
         elif r['rc'] not in (0, 1) and not any(True for l in r['stdout'].splitlines() if l.startswith('FAIL ')):
             # crashed without a captured case: take the in-flight file
             inflight = r['out'] + '.inflight'
@@ -480,19 +494,22 @@ def main_check(pid, tier, seed):
                 notes.append('%s: abnormal exit %d' % (r['label'], r['rc']))
     # confirm failures by replay x3
     violations, unreproduced, known_hits = [], [], []
-    seen = set()
+    cand = []
     for ff in fail_files:
-        if ff in seen or not os.path.exists(ff) or os.path.getsize(ff) == 0:
-            continue
-        seen.add(ff)
-        nfail = replay_case(pid, ff, vdirs)
-        if nfail == 3 or nfail < 0:
-            violations.append(ff)
-        elif nfail > 0:
-            violations.append(ff)
-            notes.append('%s reproduced %d/3 times' % (ff, nfail))
-        else:
-            unreproduced.append(ff)
+        if ff not in cand and os.path.exists(ff) and os.path.getsize(ff) > 0:
+            cand.append(ff)
+    if len(cand) > 12:
+        notes.append('%d failing case files; the first 12 are replayed' % len(cand))
+        cand = cand[:12]
+    with ThreadPoolExecutor(max_workers=JOBS) as ex:
+        for ff, nfail in zip(cand, ex.map(lambda f: replay_case(pid, f, vdirs), cand)):
+            if nfail == 3 or nfail < 0:
+                violations.append(ff)
+            elif nfail > 0:
+                violations.append(ff)
+                notes.append('%s reproduced %d/3 times' % (ff, nfail))
+            else:
+                unreproduced.append(ff)
     # regression tier: saved (shrunk) failing inputs of repaired defects and of seeded changes
     regress = sorted(glob.glob(os.path.join(VERIF, 'regress', pid + '-*.case')))
     regress_failed = []
